@@ -14,9 +14,9 @@ git diff -- . ':(exclude)*/tests/*' > "$OUT/patch.diff"
 [ -n "$DEMO" ] && cp "$DEMO" "$OUT/$(basename "$DEMO")"
 CRATE=$(echo "$DEMO" | cut -d/ -f1); TNAME=$(basename "$DEMO" .rs)
 # 1. suite with the change, demo aside
-mv "$DEMO" /tmp/_demo_aside.rs
+mv "$DEMO" /tmp/_demo_aside_$ID.rs
 cargo test --workspace --no-fail-fast --offline > "$OUT/suite_with_change.log" 2>&1; S1=$?
-mv /tmp/_demo_aside.rs "$DEMO"
+mv /tmp/_demo_aside_$ID.rs "$DEMO"
 # 2. demo with the change
 cargo test -p "$CRATE" --test "$TNAME" --offline > "$OUT/demo_with_change.log" 2>&1; S2=$?
 # 3. demo without the change
@@ -29,9 +29,9 @@ PASSED=$(grep -E '^test result' "$OUT/suite_with_change.log" | awk '{s+=$4} END 
 echo "suite rc=$S1 passed=$PASSED; demo with change rc=$S2; demo without rc=$S3"
 CONF=false; [ $S1 -eq 0 ] && [ $S2 -ne 0 ] && [ $S3 -eq 0 ] && CONF=true
 # 4. our check against the changed tree
-mkdir -p /tmp/seed_ev
+mkdir -p /tmp/seed_ev_$ID
 CHK=${VERIF_CHECK_DIR:-$V}   # a frozen copy of /verif, so that edits made while a round is taken in do not change what "first run" means
-R=$(VERIF_REPO="$WT" VERIF_EVIDENCE_DIR=/tmp/seed_ev $CHK/check.sh "$PROP" quick 2>&1); RC=$?
+R=$(VERIF_REPO="$WT" VERIF_EVIDENCE_DIR=/tmp/seed_ev_$ID $CHK/check.sh "$PROP" quick 2>&1); RC=$?
 echo "$R" | grep -E "^  $PROP/|VIOLATION|MACHINERY|$PROP quick" | head -8
 SIG=$(echo "$R" | grep -E "^  $PROP/" | sed 's/ — .*//' | tr -d ' ' | paste -sd, -)
 python3 - "$OUT" "$ID" "$PROP" "$NEEDS" "$CONF" "$RC" "$SIG" "$PASSED" "$DEMO" <<'PY'
@@ -43,5 +43,5 @@ json.dump({"id":i,"property":prop,"origin":"independent sub-agent given only the
  "quick_check_exit":int(rc),"detected":rc=="1","signatures":sig},open(out+"/meta.json","w"),indent=1)
 PY
 rm -f "$OUT"/*.log.tmp
-TAG=$(printf '%s' "$WT" | cksum | cut -d' ' -f1); rm -rf "$V/.target/w$TAG" "$CHK/.target/w$TAG" "$WT/target" /tmp/seed_ev
+TAG=$(printf '%s' "$WT" | cksum | cut -d' ' -f1); rm -rf "$V/.target/w$TAG" "$CHK/.target/w$TAG" "$WT/target" /tmp/seed_ev_$ID
 git -C /repo worktree remove --force "$WT"
